@@ -845,6 +845,9 @@ pub fn exhaustive_family(prop: &str, tier: &str, rng: &mut Rng, shard: (usize, u
             for d in merge_shape_cases() {
                 docs.push(("merge-shapes".to_string(), d.print()));
             }
+            for d in merge_argument_cases() {
+                docs.push(("merge-arguments".to_string(), d.print()));
+            }
         }
         "C10" => {
             for d in SYNTH_DIRECTIVES {
